@@ -4,8 +4,9 @@ From AV Require Import model.Store_Model proofs.Store_Proofs proofs.Store_Refine
                        proofs.Store_MergeProofs proofs.Store_MergedReads proofs.Store_Corollaries.
 Import ListNotations.
 
-(* an addition answered with ANY error leaves the whole machine — counter, cache, flags, every file —
-   exactly as it was *)
+(* an addition answered with ANY error (invalid trajectory, in-memory store that would have to evict, value
+   larger than the whole cache, read-only store) leaves the whole machine — counter, cache, flags, every
+   file — exactly as it was *)
 Theorem C10_rejected_add_is_noop :
   forall w t w' e, step fixed_cfg w (Add t) = (w', OErr e) -> w' = w.
 Proof. exact add_error_noop. Qed.
